@@ -10,6 +10,7 @@ package main
 
 import (
 	"context"
+	"encoding/binary"
 	"fmt"
 	"net"
 	"testing"
@@ -46,6 +47,38 @@ type c02Reg struct {
 type c02Client struct {
 	c    *stClient
 	regs [2]*c02Reg // v4, v6
+	// ov: phantom addresses assigned by the registrar (RegistrationResponse override); nil = the
+	// address derived from the seed. The registration exists on THIS address only.
+	ov [2]net.IP
+}
+
+// ph is the phantom address the client's registration of that family is for.
+func (x *c02Client) ph(v6 bool) net.IP {
+	i := 0
+	if v6 {
+		i = 1
+	}
+	if x.ov[i] != nil {
+		return x.ov[i]
+	}
+	return x.c.phantom(v6)
+}
+
+// regMsg is the client's registration message (with the registrar's override, if any).
+func (x *c02Client) regMsg() []byte {
+	if x.ov[0] == nil && x.ov[1] == nil {
+		return x.c.regMessage(nil)
+	}
+	return x.c.regMessage(func(wr *pb.C2SWrapper) {
+		rr := &pb.RegistrationResponse{}
+		if x.ov[0] != nil {
+			rr.Ipv4Addr = proto.Uint32(binary.BigEndian.Uint32(x.ov[0].To4()))
+		}
+		if x.ov[1] != nil {
+			rr.Ipv6Addr = x.ov[1]
+		}
+		wr.RegistrationResponse = rr
+	})
 }
 
 func TestVerifC02(t *testing.T) {
@@ -115,8 +148,24 @@ func c02Scenario(r *sim.Run) {
 				r.Fail("harness/c02-client", "%v", err)
 				return
 			}
-			cl = append(cl, &c02Client{c: c, regs: [2]*c02Reg{{}, {}}})
-			r.Logf("client %d: %s secret=%x.. phantoms %s / %s covert %s", i, stTransportName(tt), c.keys.SharedSecret[:4], c.phantom(false), c.phantom(true), c.covert)
+			x := &c02Client{c: c, regs: [2]*c02Reg{{}, {}}}
+			if tp.Prob("registrar-override", 1, 4) {
+				// the registrar moved the client to the other address of each (two-address) subnet
+				for fam, pair := range [2][2]string{{"192.0.2.4", "192.0.2.5"}, {"2001:db8:1::4", "2001:db8:1::5"}} {
+					d := c.phantom(fam == 1)
+					for _, a := range pair {
+						if ip := net.ParseIP(a); !ip.Equal(d) {
+							x.ov[fam] = ip
+							if fam == 0 {
+								x.ov[fam] = ip.To4()
+							}
+						}
+					}
+				}
+				r.Probe("registrar_phantom_override")
+			}
+			cl = append(cl, x)
+			r.Logf("client %d: %s secret=%x.. phantoms %s / %s (derived %s / %s) covert %s", i, stTransportName(tt), c.keys.SharedSecret[:4], x.ph(false), x.ph(true), c.phantom(false), c.phantom(true), c.covert)
 		}
 		registryNonEmpty := func() bool {
 			for _, x := range cl {
@@ -233,11 +282,11 @@ func c02Scenario(r *sim.Run) {
 			switch k := tp.Choose("op", 12); {
 			case k < 3: // register / duplicate
 				x := cl[tp.Choose("client", len(cl))]
-				ph4 := x.c.phantom(false).String()
+				ph4 := x.ph(false).String()
 				w.mu.Lock()
 				live4 := w.live[ph4]
 				w.mu.Unlock()
-				w.register(x.c.regMessage(nil))
+				w.register(x.regMsg())
 				for fam := 0; fam < 2; fam++ {
 					g := x.regs[fam]
 					rejectNow := fam == 0 && live4
@@ -291,7 +340,7 @@ func c02Scenario(r *sim.Run) {
 				fam := tp.Choose("family", 2)
 				g := x.regs[fam]
 				kind := tp.Choose("ckind", 8)
-				phantom := x.c.phantom(fam == 1)
+				phantom := x.ph(fam == 1)
 				var send func(h *simnet.Conn)
 				var err error
 				mustReject := false
@@ -303,7 +352,12 @@ func c02Scenario(r *sim.Run) {
 				case 2:
 					label = "genuine flight aimed at another phantom"
 					// a phantom on which this secret has no registration
-					other := cl[(x.c.id+1)%len(cl)].c.phantom(fam == 1)
+					other := cl[(x.c.id+1)%len(cl)].ph(fam == 1)
+					if x.ov[fam] != nil {
+						// the address the client's seed derives: the registrar moved the registration away from it
+						other = x.c.phantom(fam == 1)
+						label = "genuine flight aimed at the derived phantom of a registration the registrar moved"
+					}
 					if other.Equal(phantom) {
 						other = net.ParseIP("192.0.2.200").To4()
 						if fam == 1 {
